@@ -34,7 +34,7 @@ func (c13) Batches(tier string, seed uint64) []core.Batch {
 
 func (c13) Mandatory(tier string) []string {
 	return []string{"members:0", "members:1", "members:2-4", "members:5+", "size:0", "size:odd", "last-odd:padded", "last-odd:unpadded", "name:16-bytes", "name:slash-terminated",
-		"blank-numeric-fields", "member-after-odd", "data:magic-inside", "delivery:bytes.Reader", "delivery:os.File", "delivery:exact-EOF-ReaderAt",
+		"blank-numeric-fields", "zero-padded-numeric-fields", "member-after-odd", "data:magic-inside", "delivery:bytes.Reader", "delivery:os.File", "delivery:exact-EOF-ReaderAt",
 		"read:immediately", "read:after-advance", "read:continued-after-advance", "read:reseek", "read:ReadAt"}
 }
 
@@ -63,6 +63,9 @@ func genArMembers(r *core.Rand, maxMembers int) []model.ArMember {
 		}
 		if r.Chance(1, 6) {
 			m.Blank = true
+		}
+		if r.Chance(1, 6) {
+			m.ZeroPad = true
 		}
 		if r.Chance(1, 8) {
 			m.Timestamp, m.Owner, m.Group = 999999999999, 999999, 999999
@@ -238,6 +241,9 @@ func (p c13) run(c *core.C, t *core.T, cs c13Case) {
 		}
 		if m.Blank {
 			c.Cover("blank-numeric-fields")
+		}
+		if m.ZeroPad && !m.Blank {
+			c.Cover("zero-padded-numeric-fields")
 		}
 		if bytes.Contains(m.Data, []byte("!<arch>\n")) {
 			c.Cover("data:magic-inside")
